@@ -55,6 +55,8 @@ Pipe(bd)       == N("pipe", "", 0, bd, <<>>)
 Async(bd)      == N("async", "", 0, bd, <<>>)     \* { bd; } & wait
 BgKill(g)      == N("bgkill", g, 0, <<>>, <<>>)   \* { kill -s g $$; } &
 Wait           == N("wait", "", 0, <<>>, <<>>)
+BgBlock        == N("bgblock", "", 0, <<>>, <<>>) \* a job that never ends by itself: sink </tmp/fifo & p1=$!
+WaitJob        == N("waitjob", "", 0, <<>>, <<>>) \* wait $p1
 
 -----------------------------------------------------------------------------
 \* Concrete syntax
@@ -83,6 +85,8 @@ Render(nd) ==
     [] nd.k = "async"   -> "{ " \o RenderSeq(nd.a) \o "; } & wait"
     [] nd.k = "bgkill"  -> "{ kill -s " \o nd.s \o " $$; } &"
     [] nd.k = "wait"    -> "wait"
+    [] nd.k = "bgblock" -> "sink </tmp/fifo & p1=$!"
+    [] nd.k = "waitjob" -> "wait $p1"
 
 -----------------------------------------------------------------------------
 \* Semantics.  A state of the interpreter:
@@ -94,6 +98,7 @@ Render(nd) ==
 \*   fly     signal a background signaller is about to send ("" = none)
 \*   intrap  the main shell is executing a trap action
 \*   tr/ctr  events of the main shell / of all other processes
+\*   halt    the main shell is blocked for ever (recorded as the pseudo event DEADLOCK)
 
 None == [kind |-> "dfl", body |-> <<>>]
 Ign  == [kind |-> "ign", body |-> <<>>]
@@ -102,7 +107,7 @@ Cmd(bd) == [kind |-> "cmd", body |-> bd]
 Start(init) ==
   LET t0 == [g \in SigSet |-> IF init[g] = "I" THEN Ign ELSE None]
   IN [st |-> 0, main |-> TRUE, mt |-> t0, ct |-> t0, cnt |-> [g \in SigSet |-> 0], fly |-> "",
-      intrap |-> FALSE, tr |-> <<>>, ctr |-> <<>>, init |-> init]
+      intrap |-> FALSE, tr |-> <<>>, ctr |-> <<>>, init |-> init, halt |-> FALSE]
 
 Emit(s, tag, d) ==
   LET e == [t |-> tag, st |-> s.st, d |-> d]
@@ -166,6 +171,7 @@ InChild(s, bd, ct0) ==
   IN {[r EXCEPT !.main = s.main, !.ct = s.ct, !.intrap = s.intrap] : r \in ExecSeq(bd, {c0})}
 
 Exec(nd, s) ==
+  IF s.halt THEN {s} ELSE
   CASE nd.k = "probe"   -> Leaf(Emit(s, nd.s, ""))
     [] nd.k = "disp"    -> Leaf(Emit(s, nd.s, DispFrom(s, 1)))
     [] nd.k = "status"  -> Leaf([s EXCEPT !.st = nd.n])
@@ -198,6 +204,15 @@ Exec(nd, s) ==
                                    \cup {[r EXCEPT !.st = 129] : r \in Boundary(a)}
                                    \* or the signaller is already gone and wait succeeds
                                    \cup Boundary([a EXCEPT !.st = 0])
+
+    [] nd.k = "bgblock" -> Leaf([s EXCEPT !.st = 0])
+    [] nd.k = "waitjob" -> \* the awaited job never ends: only a trapped signal ends the wait - whatever
+                           \* else happens meanwhile (other jobs ending, SIGCHLD in the same batch)
+                           IF s.fly = ""
+                           THEN {[s EXCEPT !.halt = TRUE, !.tr = Append(@, [t |-> "DEADLOCK", st |-> 0, d |-> ""])]}
+                           ELSE LET a == [s EXCEPT !.cnt[s.fly] = @ + 1, !.fly = ""]
+                                IN Boundary([a EXCEPT !.st = 129])
+                                   \cup {[r EXCEPT !.st = 129] : r \in Boundary(a)}
 
 Allowed(init, prog) == {[m |-> f.tr, c |-> f.ctr] : f \in ExecSeq(prog, {Start(init)})}
 
@@ -290,7 +305,15 @@ SyncProgs3 ==
                Ctx(kk[1], <<Ctx(kk[2], <<Ctx(kk[3], <<Kill("INT")>>)>>)>>), Probe("a"), Status(4), Probe("b")>>]
    : kk \in Deep \X Deep \X Deep}
 
-Programs == SyncProgs1 \cup SyncProgs2 \cup OtherProgs \cup AsyncProgs
+\* `wait JOB` for a job that does not end, while another job sends the trapped signal to the
+\* shell and exits at once: the signal and the SIGCHLD for that other job reach the shell
+\* together; the trapped signal must still interrupt the wait.
+WaitJobProgs ==
+  {[fam |-> "wait-job:" \o k, init |-> AllDefault,
+    prog |-> <<TrapCmd("USR1", a), BgBlock, Status(3), Ctx(k, <<Probe("a")>>), BgKill("USR1"), WaitJob, Probe("w"), Status(4), Probe("b")>>]
+   : k \in {"plain", "for", "func"}, a \in {<<Probe("T"), Status(7)>>, <<Status(7), Probe("T")>>}}
+
+Programs == WaitJobProgs \cup SyncProgs1 \cup SyncProgs2 \cup OtherProgs \cup AsyncProgs
             \cup (IF Level >= 2 THEN SyncProgs2All \cup SyncProgs3 ELSE {})
 
 \* Generator: one state per program; the line carries the script and the traces allowed
@@ -300,7 +323,7 @@ GenNext == UNCHANGED p
 GenSpec == GenInit /\ [][GenNext]_p
 EmitProgram ==
   PrintT(ToJson([fam |-> p.fam, init |-> p.init, script |-> RenderSeq(p.prog),
-                 allowed |-> Allowed(p.init, p.prog), sched |-> (p \in AsyncProgs)]))
+                 allowed |-> Allowed(p.init, p.prog), sched |-> (p \in AsyncProgs \cup WaitJobProgs)]))
 
 \* sanity of the oracle itself (checked by TLC on every generated program)
 \* every allowed trace of a program that sends k signals runs the action between 1 and k times
